@@ -269,3 +269,31 @@ def method_calls_on_attr(m, attr, methods, prefix='pytableaux'):
             f = c.func
             if isinstance(f, ast.Attribute) and f.attr in methods and isinstance(f.value, ast.Attribute) and f.value.attr == attr:
                 yield mod, qn, fn, c
+
+
+def helper_closure(m, module, cls_qual, owners):
+    """Methods of class `cls_qual` (module `module`) that are private helpers of the `owners`: every call site of the
+    method's name anywhere in the package (`<x>.<name>(...)`) lies inside an owner or inside another such helper.
+    Returns the set of qualnames (owners included).  Used by who-may-write rules, so that moving a few lines of an
+    allowed writer into a new private method of the same class stays allowed."""
+    fns = dict(all_functions(m.trees[module]))
+    cand = {qn for qn in fns if qn.startswith(cls_qual + '.') and qn.count('.') == cls_qual.count('.') + 1}
+    ok = set(owners)
+    sites = {}
+    for mod, qn, fn in iter_functions(m):
+        for c in calls(fn, nested=False):
+            f = c.func
+            if isinstance(f, ast.Attribute):
+                sites.setdefault(f.attr, []).append((mod, qn))
+    changed = True
+    while changed:
+        changed = False
+        for qn in sorted(cand - ok):
+            name = qn.rsplit('.', 1)[1]
+            if not name.startswith('_') or name.startswith('__'):
+                continue
+            ss = sites.get(name, [])
+            if ss and all(mod == module and caller in ok for mod, caller in ss):
+                ok.add(qn)
+                changed = True
+    return ok
